@@ -394,6 +394,29 @@ Proof.
   destruct (null t); simpl rline; cbv beta iota; rewrite Z.eqb_refl, Hp; eauto.
 Qed.
 
+(* values written one by one without title and closed by a comment share one line: they can be read as a vector *)
+Lemma layout_untitled ws t s : layout (map (RVal []) ws ++ [RCom t]) s = ws :: s.
+Proof.
+  rewrite layout_app. simpl. induction ws as [|w ws IH]; simpl; auto. rewrite IH. reflexivity.
+Qed.
+Lemma reads_vec_untitled {A} (p : word -> option A) t ws v n :
+  mapM p ws = Some v -> ws <> [] -> n = Z.of_nat (length ws) -> reads (rd_vec p n) (map (RVal []) ws ++ [RCom t]) v.
+Proof.
+  intros Hp Hne -> s s0 E. unfold rd_vec. rewrite layout_untitled in E. rewrite <- rline_sk, E, rline_sk.
+  destruct ws as [|w ws]; try congruence. simpl rline. cbv beta iota. rewrite Z.eqb_refl, Hp. eauto.
+Qed.
+Lemma reads_vdbl_untitled t ds :
+  Forall wf_dbl ds -> ds <> [] -> reads (rd_vdbl (Z.of_nat (length ds))) (map (r_dbl "") ds ++ [RCom t]) ds.
+Proof.
+  intros Hwf Hne. unfold rd_vdbl.
+  replace (map (r_dbl "") ds) with (map (RVal []) (map print_dbl ds)) by (rewrite map_map; reflexivity).
+  apply reads_vec_untitled.
+  - rewrite <- (map_id ds) at 2. apply mapM_map. intros x Hx. apply parse_print_dbl.
+    rewrite Forall_forall in Hwf. auto.
+  - destruct ds; simpl; congruence.
+  - rewrite map_length. reflexivity.
+Qed.
+
 Lemma reads_vdbl t ds : Forall wf_dbl ds -> ds <> [] -> reads (rd_vdbl (Z.of_nat (length ds))) [r_vdbl t ds] ds.
 Proof.
   intros Hwf Hne. unfold rd_vdbl, r_vdbl. apply reads_vec.
@@ -427,6 +450,19 @@ Qed.
 Lemma reads_rrepZ {A} (r : reader A) (f : A -> list record) xs n :
   n = Z.of_nat (length xs) -> (forall x, In x xs -> reads r (f x) x) -> reads (rrepZ n r) (flat_map f xs) xs.
 Proof. intros -> H. unfold rrepZ. rewrite Nat2Z.id. apply reads_rrep; auto. Qed.
+
+(* the value read for an item may be a function of the item *)
+Lemma reads_rrep_map {A B} (r : reader B) (f : A -> list record) (g : A -> B) xs :
+  (forall x, In x xs -> reads r (f x) (g x)) -> reads (rrep (length xs) r) (flat_map f xs) (map g xs).
+Proof.
+  induction xs as [|x xs IH]; simpl; intros H.
+  - apply reads_ret.
+  - eapply reads_bind; [apply H; auto|].
+    rewrite <- (app_nil_r (flat_map f xs)). eapply reads_bind; [apply IH; auto|]. apply reads_ret.
+Qed.
+Lemma reads_rrepZ_map {A B} (r : reader B) (f : A -> list record) (g : A -> B) xs n :
+  n = Z.of_nat (length xs) -> (forall x, In x xs -> reads r (f x) (g x)) -> reads (rrepZ n r) (flat_map f xs) (map g xs).
+Proof. intros -> H. unfold rrepZ. rewrite Nat2Z.id. apply reads_rrep_map; auto. Qed.
 
 (* items written by a function of the item, read by a reader that does not depend on it, with a per-item invariant *)
 Lemma reads_ext {A} (r r' : reader A) rs a : (forall s, r s = r' s) -> reads r rs a -> reads r' rs a.
